@@ -3,7 +3,7 @@ import os
 from vcommon import Check
 
 c = Check("C07")
-c.translate(needed=["Gen_C06.v", "Gen_C06ccitt.v"])
+c.translate(needed=["Gen_C06.v", "Gen_C06ccitt.v", "Gen_C06ccitt2d.v"])
 c.coq(["C07"], "C07", "Prop_C07.v")
 drv = c.model("C06")  # the models of coq/C06 are the independent codecs; C07 adds theorems about them
 h = c.harness("c07")
